@@ -388,7 +388,9 @@ pub open spec fn entry_denotes(e: (u32, EntryCommand), op: Op) -> bool {
         Op::UpdatePermissions { user, user_id, permissions } =>
             e.1 matches EntryCommand::UpdatePermissions(c) && e.0 == user && c.user_id == user_id && c.permissions == permissions,
         Op::ChangePassword { user, user_id, current_password, new_password } =>
-            e.1 matches EntryCommand::ChangePassword(c) && e.0 == user && c.user_id == user_id && c.new_password == pw_hash(new_password),
+            e.1 matches EntryCommand::ChangePassword(c) && e.0 == user && c.user_id == user_id && c.new_password == pw_hash(new_password)
+                // C10: the previous password is never written to the journal (the handlers blank the field)
+                && c.current_password == name_of_str(""),
         Op::CreateToken { user, name, expiry, token } =>
             e.1 matches EntryCommand::CreatePersonalAccessToken(c) && e.0 == user && c.command.name == name && c.command.expiry == expiry
                 && c.hash == token_digest(token),
